@@ -320,8 +320,8 @@ impl<'tcx> TyGenContext<'_, 'tcx> {
                     needs_force_padding = true;
                     ForcePaddingStatus::PassThrough
                 }
-                // Outer struct has > 3 fields, always pad
-                (ScalarCount::Scalars(2), ScalarCount::Scalars(3..)) => ForcePaddingStatus::Force,
+                // Outer struct has > 3 fields or contains a union (which forces "padded direct" mode), always pad
+                (ScalarCount::Scalars(2), ScalarCount::Scalars(3..) | ScalarCount::Memory) => ForcePaddingStatus::Force,
                 // Larger fields will always have padding anyway
                 _ => ForcePaddingStatus::NoForce
 
